@@ -372,7 +372,7 @@ impl Runner {
         self.collect();
     }
     pub fn input(&mut self, code: u16, v: KeyValue) {
-        let osc = OsCode::from_u16(code).unwrap_or(OsCode::KEY_RESERVED);
+        let osc = OsCode::from_u16(code).expect("harness: not an OsCode");
         let _ = self.k.handle_input_event(&KeyEvent { code: osc, value: v });
         self.collect();
     }
